@@ -59,3 +59,8 @@ claim('C03',
       'dispatch-table extraction of the owned decoder vs spec/etf_tags.json, normalised wire-signature extraction per tag (widths, order, count/length provenance) vs the format table, field-order provenance, Latin-1 path rule, trailing-data dominance, CAST',
       'Decided from MIR for all 32 dispatched tags: every tag of the format (OTP 26+ and legacy) is dispatched and nothing alien is accepted; the bytes read per tag equal the format\'s layout including which field counts which repetition or byte run; each tag builds the value kind the format assigns; same-width fields are not transposed (read order = constructor parameter order, constructors store parameters in same-named fields); the legacy Latin-1 atom tags have a success path without UTF-8 validation; every single-term entry point (and the inflated inner buffer) tests for trailing data before Ok; no unguarded narrowing cast. Not decided: value equality, numerically-equal map keys (a consequence of the comparator, C12).',
       NOTE, 'DESIGN.md §4 C03')
+
+claim('C13',
+      'sibling (twin) comparison of the two hand-duplicated parser families: dispatch tables, normalised wire signatures, guard-constant multisets, constructed variants; conversion-table extraction; shape rule on byte_offset writes',
+      'Decided from MIR for all 23 tags the zero-copy decoder dispatches: each is also dispatched by the owned decoder, every modern distribution tag is covered, and per tag the two parsers read the same layout, apply the same caps and validity tests (same operators and constants) and build corresponding variants; to_owned and From<&OwnedTerm> map each of the 17 variants to itself; every byte_offset write has the form original_len - len(suffix)[-1]. Agreement of results on all inputs follows from these for well-typed paths but is not mechanised beyond signatures.',
+      NOTE, 'DESIGN.md §4 C13')
